@@ -144,6 +144,28 @@ def run_weak(chk, spec):
 		"peek-non-string-names": lambda: Table([Vector([1, 2], name=2023), Vector([3, 4], name=(1, 2)), Vector(["a", "b"], name=None), Vector([5, 6], name=2.5)]).peek(),
 		"peek-args": lambda: Table([Vector(list(vals) or [1], name=7), Vector(list(vals) or [1], name="s")]).peek(2),
 		# instances of a subclass of a NARROWER kind in a wider column (inference puts them there): they belong, and go back in
+		# an empty vector that still has a dtype (a typed vector filtered down to nothing) receives a value of another kind
+		"empty-typed-rshift-wider": lambda: Vector([1, 2, 3])[[False, False, False]] >> 2.5,
+		"empty-typed-rshift-str": lambda: Vector([1, 2, 3])[0:0] >> "x",
+		"empty-typed-rshift-none": lambda: Vector([1.5, 2.5])[2:] >> None,
+		"empty-typed-table-rshift": lambda: Table({"a": [1, 2]})[[False, False]] >> "x",
+		"empty-typed-lshift-wider": lambda: Vector([1, 2, 3])[0:0] << [2.5, None],
+		# one operation repeated on every row of an iteration (one re-pointed row object): each result is typed from ITS row
+		"each-row-to_object": lambda: [r.to_object() for r in Table({"a": [1, None, 3, None], "b": [4, 5, None, None]})],
+		"each-row-fillna-none": lambda: [r.fillna(None) for r in Table({"a": [1, None, 3], "b": [4, 5, None]})],
+		"each-row-fillna": lambda: [r.fillna(0) for r in Table({"a": [1, None, 3], "b": [4, 5, None]})],
+		"each-row-copy": lambda: [r.copy() for r in Table({"a": [1, None, 3], "b": [4.5, 5.5, None]})],
+		"each-row-slice": lambda: [r[0:2] for r in Table({"a": [1, 2, None], "b": [4, None, 6], "c": [7, 8, 9]})],
+		"each-row-arith": lambda: [r + 1 for r in Table({"a": [1, 2, None], "b": [4, None, 6]})],
+		"each-row-isna": lambda: [r.isna() for r in Table({"a": [1, None], "b": [None, 2]})],
+		"each-row-dropna": lambda: [r.dropna() for r in Table({"a": [1, None, 5], "b": [2, 3, None]})],
+		# vector arithmetic whose RIGHT operand has the None (date + days with a gap, int + int with a gap)
+		"date-plus-days-with-gap": lambda: Vector([V.D0, V.D0, V.D0]) + Vector([1, None, 3]),
+		"table-date-plus-days-with-gap": lambda: (lambda t: t["d"] + t["k"])(Table({"d": [V.D0, V.D0], "k": [None, 2]})),
+		"int-plus-int-with-gap": lambda: Vector([1, 2, 3]) + Vector([1, None, 3]),
+		"date-plus-days-then-more": lambda: (Vector([V.D0, V.D0]) + Vector([None, 2])) + 1,
+		# string predicates over a column with a gap
+		"str-predicates-with-none": lambda: Table([getattr(Vector(["ab", None, "Cd", ""]), m)(*a) for m, a in (("startswith", ("a",)), ("endswith", ("d",)), ("isalpha", ()), ("isdigit", ()), ("isupper", ()), ("islower", ()), ("isspace", ()), ("istitle", ()), ("isalnum", ()), ("isidentifier", ()), ("isnumeric", ()), ("isdecimal", ()), ("isascii", ()), ("isprintable", ()))]),
 		"datetime-subclass-only": lambda: Vector([V.Stamp(2020, 1, 1 + i % 5, 5) for i in range(max(n, 1))]),
 		"datetime-subclass-next-to-date": lambda: Vector([V.D0, V.Stamp(2020, 1, 2, 5)]),
 		"datetime-subclass-written-into-date": lambda: (lambda d: (d.__setitem__(0, V.Stamp(2020, 1, 2, 5)), d)[1])(Vector([V.D0, V.D0])),
@@ -196,7 +218,11 @@ def run_weak(chk, spec):
 	}
 	o = call(ops[what])
 	if o.ok:
-		chk.observe(o.value, what)
+		if isinstance(o.value, list) and what.startswith("each-"):
+			for item in o.value:      # an operation repeated over the rows of an iteration: every result is judged
+				chk.observe(item, what)
+		else:
+			chk.observe(o.value, what)
 	else:
 		chk.counters["weak-point-raised"] += 1
 	chk.observe(v, what + "-operand")
@@ -357,7 +383,7 @@ RUNNERS = {"rows": run_rows, "unusual": run_unusual, "weak": run_weak, "assign":
 
 WEAK_OPS = ["radd-scalar", "radd-list", "rsub-scalar", "rmul-scalar", "rtruediv", "rpow", "add-wider-scalar", "add-wider-vector", "neg", "pos", "abs", "invert",
 	"lshift-wider", "lshift-none", "lshift-str", "lshift-list-mixed", "lshift-vector", "rlshift", "cast-str", "cast-float", "cast-int", "cast-bool", "cast-callable", "cast-date-from-iso", "cast-datetime-from-iso", "cast-date-of-dates", "cast-date-of-datetimes", "cast-datetime-of-dates", "promoted-date-plus-int", "promoted-date-plus-intvec", "promoted-date-minus-timedelta", "promoted-int-abs", "promoted-int-neg",
-	"promoted-int-invert-free", "lshift-operand-widened-by-inference", "lshift-operand-bool-then-int", "lshift-operand-date-then-datetime", "lshift-nullable-operand", "table-lshift-table-widened", "huge-int-in-float", "huge-int-into-float", "huge-int-in-complex", "peek-non-string-names", "peek-args", "zero-plus-bool", "datetime-subclass-only", "datetime-subclass-next-to-date", "datetime-subclass-written-into-date", "datetime-subclass-sorted-aggregated", "subclass-int-in-float", "subclass-int-in-complex", "subclass-date-in-datetime", "subclass-int-written-into-float", "subclass-int-next-to-wider-in-one-write", "bit-lshift-scalar", "bit-rshift-vector", "bit-lshift-bool", "list-matmul-table", "renamed-deprecated", "false-plus-bool", "sum-of-bool-vectors", "zero-plus-numeric-holding-bool", "new-empty", "new-empty-typesafe",
+	"promoted-int-invert-free", "lshift-operand-widened-by-inference", "lshift-operand-bool-then-int", "lshift-operand-date-then-datetime", "lshift-nullable-operand", "table-lshift-table-widened", "huge-int-in-float", "huge-int-into-float", "huge-int-in-complex", "peek-non-string-names", "peek-args", "zero-plus-bool", "empty-typed-rshift-wider", "empty-typed-rshift-str", "empty-typed-rshift-none", "empty-typed-table-rshift", "empty-typed-lshift-wider", "each-row-to_object", "each-row-fillna-none", "each-row-fillna", "each-row-copy", "each-row-slice", "each-row-arith", "each-row-isna", "each-row-dropna", "date-plus-days-with-gap", "table-date-plus-days-with-gap", "int-plus-int-with-gap", "date-plus-days-then-more", "str-predicates-with-none", "datetime-subclass-only", "datetime-subclass-next-to-date", "datetime-subclass-written-into-date", "datetime-subclass-sorted-aggregated", "subclass-int-in-float", "subclass-int-in-complex", "subclass-date-in-datetime", "subclass-int-written-into-float", "subclass-int-next-to-wider-in-one-write", "bit-lshift-scalar", "bit-rshift-vector", "bit-lshift-bool", "list-matmul-table", "renamed-deprecated", "false-plus-bool", "sum-of-bool-vectors", "zero-plus-numeric-holding-bool", "new-empty", "new-empty-typesafe",
 	"fillna-same", "fillna-wider", "fillna-none", "fillna-integral-wider", "lshift-vector-none", "lshift-vector-same", "and-int", "or-vector", "xor-list",
 	"new-equal-narrower-first", "agg-stdev", "win-stdev", "dropna", "isna", "unique", "sort", "to_object", "T", "slice", "mask", "pluck", "new", "new-typesafe", "new-none-typesafe", "new-none", "isinstance",
 	"compare", "matmul-table", "table-sum", "table-max", "table-mean"]
